@@ -216,13 +216,14 @@ def builders(I, repo):
                    misc_models=misc)
     add('StatMech', lambda: statmech())
 
-    def nasa(name='nasa1', phase='G', misc=None):
-        return new('pmutt.empirical.nasa.Nasa', name=name, T_low=D.sym('Tl_' + name), T_mid=D.sym('Tm_' + name),
+    def nasa(name='nasa1', phase='G', misc=None, **extra):
+        return new('pmutt.empirical.nasa.Nasa', name=name, **extra, T_low=D.sym('Tl_' + name), T_mid=D.sym('Tm_' + name),
                    T_high=D.sym('Th_' + name), a_low=arr('al_' + name, 7), a_high=arr('ah_' + name, 7),
                    elements=DictV({'H': D.sym('nH_' + name)}), phase=phase, notes='nn', smiles='C', n_sites=D.sym('ns_' + name),
                    cat_site=new('pmutt.chemkin.CatSite', name='Pt', site_density=D.sym('sden'), density=D.sym('rho'),
                                 bulk_specie='Pt(B)'), misc_models=misc)
     add('Nasa[gas]', lambda: nasa())
+    add('Nasa[gas, adjustment disabled]', lambda: nasa('nasa3', 'G', None, add_gas_P_adj=False))
     add('Nasa[surface+cov]', lambda: nasa('nasa2', 'S', ListV([
         new('pmutt.mixture.cov.PiecewiseCovEffect', name_i='A', name_j='B', intervals=ListV([C(0), D.sym('b1')]),
             slopes=arr('k', 2), name='cov1')])))
@@ -235,12 +236,21 @@ def builders(I, repo):
     add('Nasa9', lambda: new('pmutt.empirical.nasa.Nasa9', name='n9', nasas=ListV([single9(0), single9(1)]),
                              n_sites=D.sym('ns9'), elements=DictV({'O': D.sym('nO')}), phase='S', notes='x'))
 
-    def shomate():
+    def cov_model():
+        return new('pmutt.mixture.cov.PiecewiseCovEffect', name_i='A', name_j='B',
+                   intervals=ListV([C(0), D.sym('b1')]), slopes=arr('k', 2), name='cov1')
+
+    def shomate(phase='G', misc=None, name='sh1'):
         v = arr('sh', 8)
         v.is_array = True
-        return new('pmutt.empirical.shomate.Shomate', name='sh1', T_low=D.sym('Tsl'), T_high=D.sym('Tsh'), a=v,
-                   units='J/mol/K', n_sites=D.sym('nss'), elements=DictV({'C': D.sym('nC')}), phase='G', notes='y')
+        return new('pmutt.empirical.shomate.Shomate', name=name, T_low=D.sym('Tsl'), T_high=D.sym('Tsh'), a=v,
+                   units='J/mol/K', n_sites=D.sym('nss'), elements=DictV({'C': D.sym('nC')}), phase=phase, notes='y',
+                   misc_models=misc)
     add('Shomate', shomate)
+    add('Shomate[surface+cov]', lambda: shomate('S', ListV([cov_model()]), 'sh2'))
+    add('Nasa9[gas+cov]', lambda: new('pmutt.empirical.nasa.Nasa9', name='n9b', nasas=ListV([single9(0)]),
+                                      n_sites=D.sym('ns9'), elements=DictV({'O': D.sym('nO')}), phase='gas',
+                                      misc_models=ListV([cov_model()])))
 
     def reference(i):
         return new('pmutt.empirical.references.Reference', T_ref=D.sym('Tref'), HoRT_ref=D.sym('Href%d' % i),
